@@ -199,8 +199,25 @@ _EXTRA4 = {
     'C10': 'operations()/repair() segment their arguments themselves (no normalised copy)',
     'C20': 'all constant segmentation flags passed from src/dictionary.rs agree',
 }
+_EXTRA5 = {
+    'C01': 'segmentation primitive and CharString positional accessors (R-C11-6 / R-C16-10 re-evaluated)',
+    'C02': 'shared framing, special-token split and exact matcher (R-C01-1, R-C01-3, R-C01-6 re-evaluated)',
+    'C05': 'no blocking Drop in the loader (R-C09-6 re-evaluated)',
+    'C11': 'Display for Character is verbatim; grapheme segmentation only in src/unicode.rs; CharString positional accessors',
+    'C12': 'whitespace predicate (R-C11-1 re-evaluated)',
+    'C13': 'constant "nothing to evaluate" flags are judged against the emptiness known at the return; no raw byte indexing with character positions',
+    'C14': 'checked subtractions of corrupt_whitespace',
+    'C15': 'every provider unwrap runs for a kind code read out of the collection of enabled kinds',
+    'C16': 'CharString::byte_start_end / char_byte_len / char_range_to_byte_range / get / sub / chars agree with the stored cluster lengths; grapheme segmentation only in src/unicode.rs',
+    'C17': 'weights follow the aggregation of the item they are written for; padded matrices are not rewritten; special-token split (R-C01-3 re-evaluated)',
+    'C18': 'an LCS cell written as explicit branches never stores the bare diagonal value',
+    'C19': 'counted words are not transformed after counting; replace_pair_in_word copies or merges every symbol (left to right, non-overlapping), replace_pair records (idx, old, new, freq) and updates vocab[idx]',
+    'C20': 'the top-k selection compares whole heap entries; edit distance recurrence and divisor (R-C12-1/2 re-evaluated)',
+}
 for _k, _v in _EXTRA3.items():
     _EXTRA_DECIDES[_k] = (_EXTRA_DECIDES[_k] + '; ' + _v) if _k in _EXTRA_DECIDES else _v
+for _k, _v in _EXTRA5.items():
+    _EXTRA4[_k] = (_EXTRA4[_k] + '; ' + _v) if _k in _EXTRA4 else _v
 for _k, _v in _EXTRA4.items():
     _EXTRA_DECIDES[_k] = (_EXTRA_DECIDES[_k] + '; ' + _v) if _k in _EXTRA_DECIDES else _v
 for _k, _v in _EXTRA_DECIDES.items():
